@@ -292,7 +292,7 @@ impl<'a> DeclVisitor for Exec<'a> {
                 format!("{}: T ok={} bytes={} offered={:?}; twin ok={} bytes={} offered={:?}", p.fmt.name(), sp.a.ok, short(&sp.a.out), &sp.a.offered[..sp.a.offered.len().min(16)], sp.b.ok, short(&sp.b.out), &sp.b.offered[..sp.b.offered.len().min(16)]),
             );
         }
-        if let (Some(inner), true) = (&sp.inner, matches!(p.fmt, Format::Json | Format::Msgpack)) {
+        if let (Some(inner), true) = (&sp.inner, p.fmt.newtype_transparent_bytes()) {
             out.probe("probe.bare_bytes_compared_with_inner");
             if sp.a.panicked.is_none() && (sp.a.ok != inner.ok || sp.a.out != inner.out || sp.a.offered != inner.offered) {
                 out.bad(
@@ -491,7 +491,7 @@ impl DeclVisitor for EnumDecl {
                 st.violation(v);
             }
         };
-        for fmt in Format::ALL {
+        for fmt in Format::BASE {
             for shape in [ShapeId::Bare, ShapeId::RecOf, ShapeId::VecOf] {
                 let k = arity(shape, &aux);
                 for w in 0..valid.len() {
